@@ -477,7 +477,14 @@ let run_parse k flags hex lines =
       (match ref_decode bs with
        | Some rf ->
          if impl_ok then begin
-           let want = dump_rec (norm_ref rf.rf_rec) in
+           (* the RCODEs the library has enumerators for, written down here from ares_dns_record.h /
+              the IANA registry (0..11 and 16..23) - NOT taken from the generated tables, so that a
+              change of ares_dns_rcode_isvalid() cannot move the expectation along with it *)
+           let known_rcode rc = (rc >= 0 && rc <= 11) || (rc >= 16 && rc <= 23) in
+           let nr = norm_ref rf.rf_rec in
+           let raw = int_of_z rf.rf_rec.d_rcode in
+           let nr = { nr with d_rcode = z_of_int (if known_rcode raw then raw else 2) } in
+           let want = dump_rec nr in
            let got = norm_null (after "0 " g) in
            bump "ref-compared";
            if got <> want then Printf.printf "FAIL %d ref-mismatch impl=[%s] ref=[%s]\n" k got want
